@@ -159,7 +159,7 @@ def classify_model(y):
 
 
 def run_matrix(chk, accepted, dbgs=(0, 1), args_of=lambda g: [(n, v) for (n, _, v) in g.params], cmd="run",
-               max_assign=None, on_case=None, fixed_witnesses=False, pruned=False):
+               max_assign=None, on_case=None, fixed_witnesses=False, pruned=False, upstream_fixed=None):
     """Gate D for C01: for every accepted program and witness assignment, the implementation (satisfy ->
     encode -> decode -> Bit Machine) succeeds exactly when the model's source semantics returns unit.
     The EXPECT witness is set (a) to the value the source semantics computes for the observed expression
@@ -232,6 +232,15 @@ def run_matrix(chk, accepted, dbgs=(0, 1), args_of=lambda g: [(n, v) for (n, _, 
                 chk.violation({"class": "redeem-encoding", "what": "%s || %s" % (x[:160], g.text[:200])}, dict(base, broken="redeem program: CMR differs from commit / encoding does not decode"))
                 continue
             want = "ok" if s == "ok" else "failed"
+            if ci != want and upstream_fixed is not None:
+                # does the failure disappear when only the dependency's known defect (D10) is corrected?
+                cf = classify_impl(upstream_fixed(iline))
+                if pruned and cf == "sat-error":
+                    cf = "failed"
+                if cf == want:
+                    chk.violation({"class": "upstream-value-prune", "what": g.text[:300]}, dict(base, expected=want, with_corrected_dependency=cf,
+                                  broken="pruned program behaves differently only because of simplicity-lang 0.4.0 Value::prune (D10)"))
+                    continue
             if ci != want:
                 chk.violation({"class": "behaviour", "what": "impl=%s source-semantics=%s || %s" % (ci, s, g.text[:200])},
                               dict(base, expected=want, broken="compiled program does not behave as the source semantics prescribe (theorem C01_compile_correct + correspondence)"))
